@@ -24,7 +24,7 @@ def K_of(eng, st, key: E.V):
     if isinstance(key, E.VStr):
         z = z3.simplify(key.z)
         if z3.is_string_value(z):
-            return E.VStr(z3.StringVal(z.as_string().upper()))
+            return E.VStr(E.upper_lit(st, z.as_string()))
         raw = st.ghost.get("raw_keys") or ()
         if str(key.z) in raw:
             return E.VStr(E.up(E.tu(key.z)))
